@@ -502,6 +502,9 @@ func ParseContracts(dir, pkgPath string) (*PkgContracts, error) {
 				return nil, err
 			}
 			anchor := strings.Join(strings.Fields(rest[:i]), " ")
+			if len(c.Props) == 0 {
+				c.Props = cur.Props // an unmatched `after` anchor is reported under the function's properties
+			}
 			cur.Afters = append(cur.Afters, &GhostUpdate{Anchor: anchor, Var: strings.TrimSpace(body[:eqi]), Expr: c})
 		case "makechan":
 			// makechan N assume P(ch)
